@@ -350,6 +350,37 @@ func checkClusterNodesParser(c *Ctx, rule string) {
 		c.Undecided(rule, "CLUSTER NODES fields", fn.Pos(), "the parser does not split lines into fields with strings.Fields")
 		return
 	}
+	// columns are compared as whole tokens: no substring test on a column of the line - the flags column is a
+	// comma-separated list in which "fail?" (suspected by one node, still serving) contains "fail", and "myself,master"
+	// contains "master"
+	nsub := 0
+	for _, pf := range append([]*ssa.Function{fn}, staticCalleesDeep(fn, 2)...) {
+		if pf.Blocks == nil || !isModFn(pf) {
+			continue
+		}
+		eachInstr(pf, func(_ *ssa.BasicBlock, _ int, in ssa.Instruction) {
+			call, ok := in.(*ssa.Call)
+			if !ok || !(isCallTo(call, "strings.Contains") || isCallTo(call, "strings.HasPrefix") || isCallTo(call, "strings.HasSuffix") || isCallTo(call, "strings.Index") || isCallTo(call, "strings.ContainsAny")) {
+				return
+			}
+			fromLine := derivesIP(call.Call.Args[0], func(v ssa.Value) bool {
+				if ia, ok := v.(*ssa.IndexAddr); ok && ia.X == fields {
+					return true
+				}
+				return v == fields
+			}, 2)
+			// a helper that is handed the column: its string parameter
+			if !fromLine {
+				if prm, isPrm := call.Call.Args[0].(*ssa.Parameter); isPrm && pf != fn {
+					fromLine = isStringVal(prm)
+				}
+			}
+			if fromLine {
+				nsub++
+				c.Fail(rule, fmt.Sprintf("%s column test#%d is a whole-token comparison", fnKey(pf), nsub), call.Pos(), "a column of a CLUSTER NODES line is tested with a substring function: the flags column is a comma-separated list, so a test for \"fail\" also matches \"fail?\" (a master that one node merely suspects, still the owner of its slots) - that owner is dropped from the view, its slots are never written and every request for them is redirected in every round")
+			}
+		})
+	}
 	// the field positions may be read by a helper that receives the split line: follow the fields value into it
 	ffn := fn
 	eachInstr(fn, func(_ *ssa.BasicBlock, _ int, in ssa.Instruction) {
